@@ -113,6 +113,7 @@ class Recorder:
         self.toggles: dict[int, Any] = {}  # incarnation -> operator_paused ToggleSet
         self.pause_toggle: dict[int, Any] = {}
         self.spawn_ctx: dict | None = None
+        self.proto_cancels: dict[int, int] = {}
 
     def log(self, e: str, **kw: Any) -> dict:
         from ..sim import runner
@@ -161,16 +162,19 @@ class Recorder:
                     rec["outcome"] = "obeyed"
                     rec["stop_reason"] = _names(stopped.reason)
                     return None
+                srec = self.by_stopper.get(id(getattr(stopped, "_setter", None)))
+                seen = 0
                 while True:       # cancel / ignore: never looks at the flag
                     try:
                         await asyncio.sleep(2.0 ** 20)
                     except asyncio.CancelledError:
                         rec.setdefault("cancels", []).append(self.sim.now())
                         reasons = _names(stopped.reason)
-                        # "ignore" gives in only once the framework has given up on it (abandoned), or when
-                        # the cancellation is not part of the stopping protocol at all (kill / exit sweep)
-                        if mode == "cancel" or self.muted() or "DAEMON_ABANDONED" in reasons or not reasons \
-                                or len(rec["cancels"]) > 50:
+                        proto = self.proto_cancels.get(srec["sid"], 0) if srec else 0
+                        by_protocol, seen = proto > seen, proto
+                        # "ignore" resists the cancellations of the stopping protocol until the framework has given
+                        # up on it (abandoned); any other cancellation (kill, the exit sweep of hung tasks) ends it
+                        if mode == "cancel" or not by_protocol or self.muted() or "DAEMON_ABANDONED" in reasons:
                             rec["outcome"] = "cancelled"
                             rec["stop_reason"] = reasons
                             raise
@@ -228,6 +232,8 @@ class TaskProxy:
         f = sys._getframe(1)
         site = f.f_code.co_name
         self._r.log("cancel", sid=self._rec["sid"], site=site, cid=_cur_stop.get(), kid=_cur_kill.get())
+        if site in ("stop_daemons", "stop_daemon"):
+            self._r.proto_cancels[self._rec["sid"]] = self._r.proto_cancels.get(self._rec["sid"], 0) + 1
         return self._t.cancel(*a, **k)
 
     def __getattr__(self, name: str) -> Any:
@@ -1023,11 +1029,6 @@ def oracle(ctx: Ctx, sc: dict, res: dict) -> dict:
                 if c.get("outcome") == "own-exit" and not c.get("flag_at_exit") and cs[k + 1:]:
                     fail(f"daemon {key[2]} returned by itself at t={c['t_end']} and was called again at t={cs[k + 1]['t']}",
                          {"site": "daemons.spawn_daemons", "shape": "restarted after exiting on its own"})
-        if h and h["kind"] == "timer" and "interval" not in h.get("opts", {}) and "idle" not in h.get("opts", {}):
-            ok_runs = [c for c in cs if c.get("outcome") == "ok"]
-            if len(ok_runs) > 1:
-                fail(f"one-shot timer {key[2]} (no interval, no idle) ran {len(ok_runs)} times for {key[1]}",
-                     {"site": "daemons.spawn_daemons", "shape": "restarted after exiting on its own"})
     # ---- O2: started when the object appears / starts matching ----------------------------------------------------------
     eps = 1.0 / 128
     for inc, iv in incs.items():
